@@ -233,6 +233,18 @@ fn directed_ops(rep: &mut Report, only: Option<&str>) {
             Op::Insert { table: "T".into(), rows: vec![vec![V::Int(5), V::s("t0x5 new")]] },
         ],
     ));
+    // cells around the 16-bit length field of a string-pool entry, with other strings interned after them
+    scen.push((
+        "cells-of-65534-65535-65536-bytes".into(),
+        vec![
+            Op::CreateTable { name: "T".into(), cols: kv.clone() },
+            Op::CreateTable { name: "U".into(), cols: kv.clone() },
+            Op::Insert { table: "T".into(), rows: vec![vec![V::Int(1), V::Str("a".repeat(65_534))], vec![V::Int(2), V::Str("b".repeat(65_535))], vec![V::Int(3), V::Str("c".repeat(65_536))]] },
+            Op::Insert { table: "U".into(), rows: vec![vec![V::Int(1), V::s("t0x1 after the long ones")], vec![V::Int(2), V::s("t0x2 too")]] },
+            Op::Update { table: "U".into(), sets: vec![("V".into(), V::s("t0x3 changed"))], cond: None },
+            Op::Delete { table: "T".into(), cond: Some(em::MExpr::Bin(em::Bin::Eq, Box::new(em::MExpr::Col("K".into())), Box::new(em::MExpr::Lit(V::Int(1))))) },
+        ],
+    ));
     let mon = monitors();
     for (name, ops) in scen {
         if only.map(|o| o != name).unwrap_or(false) {
